@@ -73,3 +73,19 @@ Print Assumptions C11_concurrent_close_at_most_once.
 Theorem C11_unlocked_close_refuted : forall skip, exists sched, cl_sent (close_run false skip 2 sched) = 2%nat.
 Proof. exact unlocked_close_refuted. Qed.
 Print Assumptions C11_unlocked_close_refuted.
+
+(* ---------- Connection.close() from several threads (last clause) ---------- *)
+(* read off the source on every run: Connection.close() follows the protocol of the model above -
+   "neither closed nor closing" read and the move to CLOSING made in one step under the close
+   lock, Connection.Close sent once, after it, only by the caller for whom the reading was true,
+   CLOSED in the finally block of every caller.  With that, C11_concurrent_close_at_most_once
+   (skip := nobody) is the statement that any number of threads in connection.close(), under
+   every schedule, put at most one Connection.Close on the wire. *)
+Theorem C11_source_connection_close_once : connclose_shape_ok = true.
+Proof. vm_compute. reflexivity. Qed.
+Print Assumptions C11_source_connection_close_once.
+
+Theorem C11_concurrent_connection_close_at_most_once : forall n sched,
+  (cl_sent (close_run true (fun _ => false) n sched) <= 1)%nat.
+Proof. intros n sched. exact (close_at_most_once (fun _ => false) n sched). Qed.
+Print Assumptions C11_concurrent_connection_close_at_most_once.
